@@ -261,13 +261,20 @@ pub(super) fn generate_pattern_nodes(
             }
         }
         Pattern::Slice(PatternSlice { elements, .. }) => {
-            let rest = elements
-                .iter()
-                .any(|e| matches!(e, Pattern::Range(PatternRange { node_id, .. }) if *node_id == usize::MAX));
+            // A full range (`..`) inside a slice is the rest marker, not an element.
+            let is_rest = |e: &Pattern| {
+                matches!(
+                    e,
+                    Pattern::Range(PatternRange { expr: syn::Expr::Range(r), .. })
+                        if r.start.is_none() && r.end.is_none()
+                )
+            };
+
+            let rest = elements.iter().any(is_rest);
 
             let child_refs: Vec<TokenStream> = elements
                 .iter()
-                .filter(|e| !matches!(e, Pattern::Range(PatternRange { node_id, .. }) if *node_id == usize::MAX))
+                .filter(|e| !is_rest(e))
                 .map(|elem| generate_pattern_nodes(elem, node_defs, Some(&node_ident)))
                 .collect();
 
